@@ -15,6 +15,7 @@ import (
 	"strings"
 	"sync"
 	"sync/atomic"
+	"syscall"
 	"testing"
 	"time"
 
@@ -37,6 +38,7 @@ var c09Ops = []string{
 	"slog.Info", "slog.With+WithGroup", "slog.Handler.WithAttrs+Handle", "slog.PendingGroups.WithGroup", "slog.PendingGroups.WithAttrs",
 	"BWS.Write", "BWS.Sync", "BWS.Stop", "Locked.Write", "Locked.Sync",
 	"LazyChild.Info", "LazyChild.With", "yield",
+	"BWSoverLock.Write", "BWSoverLock.Sync", "ErrnoLocked.Write+Sync", "ErrnoLocked.Write+Sync", "ErrnoLogger.Error+Sync",
 	"ReflectCtx.Info(reflect)", "ReflectCtx.Info(reflect)", "ReflectCtx.With(reflect)", "Logger.Info(unencodable)", "Logger.Error(errors)", "Logger.Info(nested)",
 	"Logger.Info(unencodable-last)", "Logger.Info(unencodable-last)", "DeepStack.Error", "DeepStack.Error", "Logger.Info(big)", "StdLog.Print", "grpc.Info", "grpc.V", "zapio.Write", "Logger.Check(disabled)", "Logger.Info(stringers)",
 }
@@ -85,6 +87,21 @@ func (l *c09LockedBuf) Write(p []byte) (int, error) {
 }
 func (l *c09LockedBuf) Sync() error { return nil }
 
+// c09ErrnoBuf is NOT safe for concurrent use and cannot be synced.
+type c09ErrnoBuf struct {
+	b []byte
+	n int
+}
+
+func (u *c09ErrnoBuf) Write(p []byte) (int, error) { u.b = append(u.b[:0], p...); return len(p), nil }
+func (u *c09ErrnoBuf) Sync() error {
+	u.n++
+	if u.n%2 == 0 {
+		return &os.PathError{Op: "sync", Path: "/dev/stderr", Err: syscall.ENOTTY}
+	}
+	return syscall.EINVAL
+}
+
 // unsafeBuf is NOT safe for concurrent use: it is only ever reached through zapcore.Lock.
 type unsafeBuf struct{ b []byte }
 
@@ -98,6 +115,13 @@ func c09Run(t interface{ Fatalf(string, ...any) }, p *c09Program) (sharedWriters
 	locked := zapcore.Lock(&unsafeBuf{})
 	bws := &zapcore.BufferedWriteSyncer{WS: &c09LockedBuf{}, Size: 64, FlushInterval: time.Millisecond}
 	defer bws.Stop()
+	// a buffered syncer on top of the SAME locked syncer the JSON core writes to: its flushes must take that lock
+	bwsOverLock := &zapcore.BufferedWriteSyncer{WS: locked, Size: 32, FlushInterval: time.Millisecond}
+	defer bwsOverLock.Stop()
+	// a locked syncer whose destination cannot be synced (what fsync reports for terminals and pipes)
+	errnoLocked := zapcore.Lock(&c09ErrnoBuf{})
+	errnoLogger := zap.New(zapcore.NewCore(zapcore.NewJSONEncoder(zapcore.EncoderConfig{MessageKey: "m"}), errnoLocked, zapcore.DebugLevel), zap.ErrorOutput(errnoLocked),
+		zap.WithFatalHook(countHook{new(int64)}), zap.WithPanicHook(countHook{new(int64)}))
 	cfg := zapcore.EncoderConfig{TimeKey: "t", MessageKey: "m", LevelKey: "l", NameKey: "n", CallerKey: "c", StacktraceKey: "s", EncodeLevel: zapcore.LowercaseLevelEncoder, EncodeCaller: zapcore.ShortCallerEncoder,
 		EncodeTime: zapcore.RFC3339NanoTimeEncoder, EncodeDuration: zapcore.StringDurationEncoder}
 	oc, logs := observer.New(al)
@@ -253,6 +277,17 @@ func c09Run(t interface{ Fatalf(string, ...any) }, p *c09Program) (sharedWriters
 						_ = h.Handle(context.Background(), r)
 					case "slog.PendingGroups.WithAttrs":
 						_ = pending.WithAttrs([]slog.Attr{slog.Int("a", g)}).Handle(context.Background(), slog.NewRecord(time.Unix(1, 0), slog.LevelWarn, "i", 0))
+					case "BWSoverLock.Write":
+						_, _ = bwsOverLock.Write([]byte("buffered over the shared lock, longer than the buffer ............\n"))
+					case "BWSoverLock.Sync":
+						_ = bwsOverLock.Sync()
+					case "ErrnoLocked.Write+Sync":
+						_, _ = errnoLocked.Write([]byte("x\n"))
+						_ = errnoLocked.Sync()
+					case "ErrnoLogger.Error+Sync":
+						errnoLogger.DPanic("sync follows") // the IO core syncs after DPanic and above
+						_ = errnoLogger.Sync()
+						errnoLogger.Info("after")
 					case "BWS.Write":
 						_, _ = bws.Write([]byte("direct\n"))
 					case "BWS.Sync":
@@ -277,9 +312,9 @@ func c09Run(t interface{ Fatalf(string, ...any) }, p *c09Program) (sharedWriters
 						shared.Info("u", zap.Reflect("bad", make(chan int)), zap.Reflect("nan", map[string]float64{"x": math.NaN()}), zap.Reflect("ok", []int{g}))
 						reflCtx.Info("u", zap.Reflect("bad", func() {}), zap.Reflect("ok", g))
 					case "Logger.Info(unencodable-last)":
-					shared.Info("u", zap.Int("g", g), zap.Reflect("bad", make(chan int)))
-					reflCtx.Info("u", zap.Reflect("ok", g), zap.Reflect("bad", map[string]float64{"x": math.Inf(1)}))
-				case "Logger.Error(errors)":
+						shared.Info("u", zap.Int("g", g), zap.Reflect("bad", make(chan int)))
+						reflCtx.Info("u", zap.Reflect("ok", g), zap.Reflect("bad", map[string]float64{"x": math.Inf(1)}))
+					case "Logger.Error(errors)":
 						shared.Error("e", zap.Errors("errs", []error{fmt.Errorf("e%d", g), nil, verboseErr{"v"}, groupErr{"g", []error{fmt.Errorf("m")}}}), zap.NamedError("ne", panicErr{"boom"}))
 					case "Logger.Info(nested)":
 						shared.Info("n", zap.Object("o", c04Obj{g, "pad"}), zap.Objects("os", []c04Obj{{g, "a"}, {g, "b"}}), zap.Dict("d", zap.Int("g", g), zap.Namespace("ns"), zap.Duration("dur", time.Duration(g))),
